@@ -845,13 +845,19 @@ class Workspace(AbstractContextManager):
 
         :return: Dictionary of values.
         """
+        entity = self.get_entity(uid)[0]
+        if isinstance(entity, Group):
+            entity_type = "Groups"
+        elif isinstance(entity, Data):
+            entity_type = "Data"
+        else:
+            entity_type = "Objects"
+
         return self._io_call(
             H5Reader.fetch_metadata,
             uid,
             argument=argument,
-            entity_type=(
-                "Groups" if isinstance(self.get_entity(uid)[0], Group) else "Objects"
-            ),
+            entity_type=entity_type,
             mode="r",
         )
 
